@@ -55,14 +55,14 @@ Proof. intros. discriminate. Qed.
 Section Inv.
   Variable g : world.
 
-  Definition IA (en : bool) (bl : list delta) (R dbr : nat) (mem : list delta) (s : asp) : Prop :=
-    SpInv addr acct acct N.eqb (fun a : acct => a) acct_empty (w_acct g) en (map d_accts bl) R dbr (map d_accts mem) s.
-  Definition IR (en : bool) (bl : list delta) (R dbr : nat) (mem : list delta) (s : rsp) : Prop :=
-    SpInv (addr * cidx) res resrec pair_eqb res_interp res_empty (w_res g) en (map d_res bl) R dbr (map d_res mem) s.
-  Definition IK (en : bool) (bl : list delta) (R dbr : nat) (mem : list delta) (s : ksp) : Prop :=
-    SpInv kvkey (option bytes) kvrec bytes_eqb kv_interp None (w_kv g) en (map d_kv bl) R dbr (map d_kv mem) s.
+  Definition IA (fx en : bool) (bl : list delta) (R dbr : nat) (mem : list delta) (s : asp) : Prop :=
+    SpInv addr acct acct N.eqb (fun a : acct => a) acct_empty (w_acct g) fx en (map d_accts bl) R dbr (map d_accts mem) s.
+  Definition IR (fx en : bool) (bl : list delta) (R dbr : nat) (mem : list delta) (s : rsp) : Prop :=
+    SpInv (addr * cidx) res resrec pair_eqb res_interp res_empty (w_res g) fx en (map d_res bl) R dbr (map d_res mem) s.
+  Definition IK (fx en : bool) (bl : list delta) (R dbr : nat) (mem : list delta) (s : ksp) : Prop :=
+    SpInv kvkey (option bytes) kvrec bytes_eqb kv_interp None (w_kv g) fx en (map d_kv bl) R dbr (map d_kv mem) s.
   Definition IC (bl : list delta) (R dbr : nat) (mem : list delta) (s : csp) : Prop :=
-    SpInv cidx creat creat N.eqb creat_interp creat_none (w_cre g) false (map d_cre bl) R dbr (map d_cre mem) s.
+    SpInv cidx creat creat N.eqb creat_interp creat_none (w_cre g) true false (map d_cre bl) R dbr (map d_cre mem) s.
 
   Definition phase_ok (s : st) : Prop :=
     match t_phase s with
@@ -77,13 +77,12 @@ Section Inv.
     end.
 
   Record Inv (s : st) : Prop := mkInv {
-    i_fix : cf_fix (t_cfg s) = true;       (* the repaired flushPendingWritesSince *)
     i_wf : wf_hist g (t_blocks s);
     i_R : t_dbRound s <= length (t_blocks s);
     i_pre : pfx (t_blocks s) (t_dbRound s) (t_deltas s);
-    i_a : IA (cf_cache (t_cfg s)) (t_blocks s) (t_dbRound s) (t_dbr s) (t_deltas s) (t_acc s);
-    i_r : IR (cf_cache (t_cfg s)) (t_blocks s) (t_dbRound s) (t_dbr s) (t_deltas s) (t_res s);
-    i_k : IK (cf_cache (t_cfg s)) (t_blocks s) (t_dbRound s) (t_dbr s) (t_deltas s) (t_kv s);
+    i_a : IA (cf_fix (t_cfg s)) (cf_cache (t_cfg s)) (t_blocks s) (t_dbRound s) (t_dbr s) (t_deltas s) (t_acc s);
+    i_r : IR (cf_fix (t_cfg s)) (cf_cache (t_cfg s)) (t_blocks s) (t_dbRound s) (t_dbr s) (t_deltas s) (t_res s);
+    i_k : IK (cf_fix (t_cfg s)) (cf_cache (t_cfg s)) (t_blocks s) (t_dbRound s) (t_dbr s) (t_deltas s) (t_kv s);
     i_c : IC (t_blocks s) (t_dbRound s) (t_dbr s) (t_deltas s) (t_cre s);
     i_phase : phase_ok s;
     i_queue : queue_ok s }.
@@ -188,7 +187,7 @@ Section Inv.
     Inv s -> Full s -> wf_hist g (t_blocks s ++ [d]) -> Inv (set_blocks s (t_blocks s ++ [d])).
   Proof.
     intros s d H HF Hwf. assert (Hd := dbr_le s H). unfold Full in HF.
-    destruct H as [Hfix _ HR Hpre Ha Hr Hk Hc Hph Hq].
+    destruct H as [_ HR Hpre Ha Hr Hk Hc Hph Hq].
     assert (HR' : t_dbRound s <= length (t_blocks s)) by exact HR.
     assert (Hdb : t_dbr s <= length (t_blocks s)) by lia.
     constructor; simpl; try assumption.
@@ -197,13 +196,13 @@ Section Inv.
       replace (length (t_deltas s) - length (skipn (t_dbRound s) (t_blocks s))) with 0
         by (rewrite skipn_length; lia).
       simpl. rewrite app_nil_r. exact Hpre.
-    - unfold IA in *. rewrite map_app. apply (spinv_ext _ _ _ _ _ _ _ _ (map d_accts (t_blocks s))); [| |exact Ha];
+    - unfold IA in *. rewrite map_app. apply (spinv_ext _ _ _ _ _ _ _ _ _ (map d_accts (t_blocks s))); [| |exact Ha];
         intro k; rewrite ks_state_app; try reflexivity; rewrite map_length; assumption.
-    - unfold IR in *. rewrite map_app. apply (spinv_ext _ _ _ _ _ _ _ _ (map d_res (t_blocks s))); [| |exact Hr];
+    - unfold IR in *. rewrite map_app. apply (spinv_ext _ _ _ _ _ _ _ _ _ (map d_res (t_blocks s))); [| |exact Hr];
         intro k; rewrite ks_state_app; try reflexivity; rewrite map_length; assumption.
-    - unfold IK in *. rewrite map_app. apply (spinv_ext _ _ _ _ _ _ _ _ (map d_kv (t_blocks s))); [| |exact Hk];
+    - unfold IK in *. rewrite map_app. apply (spinv_ext _ _ _ _ _ _ _ _ _ (map d_kv (t_blocks s))); [| |exact Hk];
         intro k; rewrite ks_state_app; try reflexivity; rewrite map_length; assumption.
-    - unfold IC in *. rewrite map_app. apply (spinv_ext _ _ _ _ _ _ _ _ (map d_cre (t_blocks s))); [| |exact Hc];
+    - unfold IC in *. rewrite map_app. apply (spinv_ext _ _ _ _ _ _ _ _ _ (map d_cre (t_blocks s))); [| |exact Hc];
         intro k; rewrite ks_state_app; try reflexivity; rewrite map_length; assumption.
   Qed.
 
@@ -213,14 +212,14 @@ Section Inv.
     t_dbRound s + length (t_deltas s) < length (t_blocks s) ->
     Inv (newblock_mem s d).
   Proof.
-    intros s d H Hn Hl. destruct H as [Hfix Hwf HR Hpre Ha Hr Hk Hc Hph Hq].
+    intros s d H Hn Hl. destruct H as [Hwf HR Hpre Ha Hr Hk Hc Hph Hq].
     assert (Hb := wf_block _ _ Hwf Hl). rewrite Hn in Hb. apply wf_deltab_parts in Hb.
     destruct Hb as [Hna [Hnr [Hnk [Hnc _]]]].
     constructor; simpl; try assumption.
     - now apply (pfx_snoc _ delta_dummy).
-    - unfold IA in *. rewrite map_app, Hfix. simpl. apply sp_newblock_inv; [exact Neqb_spec|exact Ha|exact Hna].
-    - unfold IR in *. rewrite map_app, Hfix. simpl. apply sp_newblock_inv; [exact pair_eqb_spec|exact Hr|exact Hnr].
-    - unfold IK in *. rewrite map_app, Hfix. simpl. apply sp_newblock_inv; [exact bytes_eqb_spec|exact Hk|exact Hnk].
+    - unfold IA in *. rewrite map_app. simpl. apply sp_newblock_inv; [exact Neqb_spec|exact Ha|exact Hna].
+    - unfold IR in *. rewrite map_app. simpl. apply sp_newblock_inv; [exact pair_eqb_spec|exact Hr|exact Hnr].
+    - unfold IK in *. rewrite map_app. simpl. apply sp_newblock_inv; [exact bytes_eqb_spec|exact Hk|exact Hnk].
     - unfold IC in *. rewrite map_app. simpl. apply sp_newblock_inv; [exact Neqb_spec|exact Hc|exact Hnc].
     - unfold phase_ok in *. simpl. rewrite app_length. simpl.
       destruct (t_phase s); [exact Hph| |]; destruct Hph; split; try assumption; lia.
@@ -316,7 +315,7 @@ Section Inv.
   Proof.
     intros s H. unfold commitdb. destruct (t_phase s) as [|off|off] eqn:Ep; [now split| |now split].
     assert (Hp := i_phase s H). unfold phase_ok in Hp. rewrite Ep in Hp. destruct Hp as [Hdbr Hoff].
-    destruct H as [Hfix Hwf HR Hpre Ha Hr Hk Hc Hph Hq]. rewrite Hdbr in *.
+    destruct H as [Hwf HR Hpre Ha Hr Hk Hc Hph Hq]. rewrite Hdbr in *.
     rewrite !firstn_map'.
     destruct (a_commit _ _) as [a'|] eqn:Ea; [|split; [apply inv_set_phase; [constructor; try rewrite Hdbr; assumption|exact Hdbr]|reflexivity]].
     destruct (r_commit _ _) as [r'|] eqn:Er; [|split; [apply inv_set_phase; [constructor; try rewrite Hdbr; assumption|exact Hdbr]|reflexivity]].
@@ -368,28 +367,28 @@ Section Inv.
   Proof.
     intros s H. unfold postcommit. destruct (t_phase s) as [|off|off] eqn:Ep; [eauto|eauto|].
     assert (Hp := i_phase s H). unfold phase_ok in Hp. rewrite Ep in Hp. destruct Hp as [Hdbr Hoff].
-    destruct H as [Hfix Hwf HR Hpre Ha Hr Hk Hc Hph Hq]. rewrite Hdbr in *.
+    destruct H as [Hwf HR Hpre Ha Hr Hk Hc Hph Hq]. rewrite Hdbr in *.
     assert (Hlen : forall (B : Type) (f : delta -> B), 1 <= off <= length (map f (t_deltas s))) by (intros; rewrite map_length; lia).
     assert (Hlen' : forall (B : Type) (f : delta -> B), off <= length (map f (t_deltas s))) by (intros; rewrite map_length; lia).
     assert (Htot := pfx_len _ _ _ _ Hpre HR).
     rewrite !firstn_map'.
     destruct (sp_post_inv addr acct acct N.eqb (fun a : acct => a) (fun _ d => d) acct_empty no_skip Neqb_spec wfrecA (fun _ => eq_refl) (fun _ _ _ => eq_refl)
-                (no_skip_ok _ _ wfrecA) _ _ _ _ _ _ _ Ha (pfx_is_prefix _ _ d_accts _ _ _ Hpre) (Hlen _ d_accts)
+                (no_skip_ok _ _ wfrecA) _ _ _ _ _ _ _ _ Ha (pfx_is_prefix _ _ d_accts _ _ _ Hpre) (Hlen _ d_accts)
                 (all_nodup_prefix _ _ _ _ _ _ _ (nodupA _ Hwf) (pfx_is_prefix _ _ d_accts _ _ _ Hpre) (Hlen' _ d_accts))
                 (wf_all_range _ _ _ _ _ _ _ _ _ _ _ (wfallA _) (pfx_is_prefix _ _ d_accts _ _ _ Hpre) (Hlen' _ d_accts)))
       as [a' [Ea Ia]].
     destruct (sp_post_inv (addr * cidx)%type res resrec pair_eqb res_interp res_merge res_empty no_skip pair_eqb_spec wfrecR res_merge_first res_merge_ok
-                (no_skip_ok _ _ wfrecR) _ _ _ _ _ _ _ Hr (pfx_is_prefix _ _ d_res _ _ _ Hpre) (Hlen _ d_res)
+                (no_skip_ok _ _ wfrecR) _ _ _ _ _ _ _ _ Hr (pfx_is_prefix _ _ d_res _ _ _ Hpre) (Hlen _ d_res)
                 (all_nodup_prefix _ _ _ _ _ _ _ (nodupR _ Hwf) (pfx_is_prefix _ _ d_res _ _ _ Hpre) (Hlen' _ d_res))
                 (wf_all_range _ _ _ _ _ _ _ _ _ _ _ (wfallR _ Hwf) (pfx_is_prefix _ _ d_res _ _ _ Hpre) (Hlen' _ d_res)))
       as [r' [Er Ir]].
     destruct (sp_post_inv kvkey (option bytes) kvrec bytes_eqb kv_interp (fun _ d => kv_interp d) None kv_skip bytes_eqb_spec wfrecK (fun _ => eq_refl) (fun _ _ _ => eq_refl)
-                kv_skip_ok _ _ _ _ _ _ _ Hk (pfx_is_prefix _ _ d_kv _ _ _ Hpre) (Hlen _ d_kv)
+                kv_skip_ok _ _ _ _ _ _ _ _ Hk (pfx_is_prefix _ _ d_kv _ _ _ Hpre) (Hlen _ d_kv)
                 (all_nodup_prefix _ _ _ _ _ _ _ (nodupK _ Hwf) (pfx_is_prefix _ _ d_kv _ _ _ Hpre) (Hlen' _ d_kv))
                 (wf_all_range _ _ _ _ _ _ _ _ _ _ _ (wfallK _ Hwf) (pfx_is_prefix _ _ d_kv _ _ _ Hpre) (Hlen' _ d_kv)))
       as [k' [Ek Ik]].
     destruct (sp_post_inv cidx creat creat N.eqb creat_interp (fun _ d => creat_interp d) creat_none no_skip Neqb_spec wfrecC (fun _ => eq_refl) (fun _ _ _ => eq_refl)
-                (no_skip_ok _ _ wfrecC) _ _ _ _ _ _ _ Hc (pfx_is_prefix _ _ d_cre _ _ _ Hpre) (Hlen _ d_cre)
+                (no_skip_ok _ _ wfrecC) _ _ _ _ _ _ _ _ Hc (pfx_is_prefix _ _ d_cre _ _ _ Hpre) (Hlen _ d_cre)
                 (all_nodup_prefix _ _ _ _ _ _ _ (nodupC _ Hwf) (pfx_is_prefix _ _ d_cre _ _ _ Hpre) (Hlen' _ d_cre))
                 (wf_all_range _ _ _ _ _ _ _ _ _ _ _ (wfallC _) (pfx_is_prefix _ _ d_cre _ _ _ Hpre) (Hlen' _ d_cre)))
       as [c' [Ec Ic]].
@@ -409,9 +408,9 @@ Section Inv.
   (* ---------- flush / prune / lookups ---------- *)
   Lemma inv_set_spaces : forall s a r k c,
     Inv s ->
-    IA (cf_cache (t_cfg s)) (t_blocks s) (t_dbRound s) (t_dbr s) (t_deltas s) a ->
-    IR (cf_cache (t_cfg s)) (t_blocks s) (t_dbRound s) (t_dbr s) (t_deltas s) r ->
-    IK (cf_cache (t_cfg s)) (t_blocks s) (t_dbRound s) (t_dbr s) (t_deltas s) k ->
+    IA (cf_fix (t_cfg s)) (cf_cache (t_cfg s)) (t_blocks s) (t_dbRound s) (t_dbr s) (t_deltas s) a ->
+    IR (cf_fix (t_cfg s)) (cf_cache (t_cfg s)) (t_blocks s) (t_dbRound s) (t_dbr s) (t_deltas s) r ->
+    IK (cf_fix (t_cfg s)) (cf_cache (t_cfg s)) (t_blocks s) (t_dbRound s) (t_dbr s) (t_deltas s) k ->
     IC (t_blocks s) (t_dbRound s) (t_dbr s) (t_deltas s) c ->
     Inv (set_spaces s a r k c).
   Proof. intros s a r k c [] Ha Hr Hk Hc. constructor; assumption. Qed.
@@ -449,22 +448,22 @@ Section Inv.
     intros s o H Ho. assert (Hpre := i_pre s H).
     destruct o; try contradiction; cbn [step].
     - destruct (a_lookup _ _ _ _ _ _ _ _ _) as [x y'] eqn:E. simpl.
-      destruct (sp_lookup_ok _ _ _ _ _ _ _ _ Neqb_spec acct_is_empty_spec _ _ _ _ _ _ _ _ _ _ _ _ _
+      destruct (sp_lookup_ok _ _ _ _ _ _ _ _ Neqb_spec acct_is_empty_spec _ _ _ _ _ _ _ _ _ _ _ _ _ _
                   (i_a s H) (pfx_is_prefix _ _ d_accts _ _ _ Hpre) E) as [Hi [Hv Ht]].
       split; [apply inv_set_spaces; try assumption; apply H|]. split; [reflexivity|]. split; [|reflexivity].
       unfold res_ok, servable, ans_acct. rewrite state_at_acct. rewrite map_length in Ht. now split.
     - destruct (r_lookup _ _ _ _ _ _ _ _ _) as [x y'] eqn:E. simpl.
-      destruct (sp_lookup_ok _ _ _ _ _ _ _ _ pair_eqb_spec res_is_empty_spec _ _ _ _ _ _ _ _ _ _ _ _ _
+      destruct (sp_lookup_ok _ _ _ _ _ _ _ _ pair_eqb_spec res_is_empty_spec _ _ _ _ _ _ _ _ _ _ _ _ _ _
                   (i_r s H) (pfx_is_prefix _ _ d_res _ _ _ Hpre) E) as [Hi [Hv Ht]].
       split; [apply inv_set_spaces; try assumption; apply H|]. split; [reflexivity|]. split; [|reflexivity].
       unfold res_ok, servable, ans_res. rewrite state_at_res. rewrite map_length in Ht. now split.
     - destruct (k_lookup _ _ _ _ _ _ _ _ _) as [x y'] eqn:E. simpl.
-      destruct (sp_lookup_ok _ _ _ _ _ _ _ _ bytes_eqb_spec kv_is_empty_spec _ _ _ _ _ _ _ _ _ _ _ _ _
+      destruct (sp_lookup_ok _ _ _ _ _ _ _ _ bytes_eqb_spec kv_is_empty_spec _ _ _ _ _ _ _ _ _ _ _ _ _ _
                   (i_k s H) (pfx_is_prefix _ _ d_kv _ _ _ Hpre) E) as [Hi [Hv Ht]].
       split; [apply inv_set_spaces; try assumption; apply H|]. split; [reflexivity|]. split; [|reflexivity].
       unfold res_ok, servable, ans_kv. rewrite state_at_kv. rewrite map_length in Ht. now split.
     - simpl. split; [exact H|]. split; [reflexivity|]. split; [|reflexivity].
-      destruct (cr_lookup_ok cidx creat creat N.eqb creat_interp creat_none (w_cre g) false (map d_cre (t_blocks s))
+      destruct (cr_lookup_ok cidx creat creat N.eqb creat_interp creat_none (w_cre g) true false (map d_cre (t_blocks s))
                   (t_dbRound s) (t_dbr s) (map d_cre (t_deltas s)) (t_cre s) rnd c _ (i_c s H) (pfx_is_prefix _ _ d_cre _ _ _ Hpre) eq_refl)
         as [Hv Ht].
       rewrite map_length in Ht. unfold res_ok, servable, ans_creator. rewrite state_at_cre. split.
@@ -474,17 +473,17 @@ Section Inv.
         * intro Hd. destruct (H1 Hd) as [v Hv']. rewrite Hv'. simpl. eauto.
         * intro Hd. destruct (H2 Hd) as [Hv'|[v Hv']]; rewrite Hv'; simpl; eauto.
     - destruct (a_lookup _ _ _ _ _ _ _ _ _) as [x y'] eqn:E. simpl.
-      destruct (sp_lookup_ok _ _ _ _ _ _ _ _ Neqb_spec acct_is_empty_spec _ _ _ _ _ _ _ _ _ _ _ _ _
+      destruct (sp_lookup_ok _ _ _ _ _ _ _ _ Neqb_spec acct_is_empty_spec _ _ _ _ _ _ _ _ _ _ _ _ _ _
                   (i_a s H) (pfx_is_prefix _ _ d_accts _ _ _ Hpre) E) as [Hi [Hv Ht]].
       split; [apply inv_set_spaces; try assumption; apply H|]. split; [reflexivity|]. split; [|reflexivity].
       unfold res_ok, servable, ans_acct. rewrite state_at_acct. rewrite map_length in Ht. now split.
     - destruct (r_lookup _ _ _ _ _ _ _ _ _) as [x y'] eqn:E. simpl.
-      destruct (sp_lookup_ok _ _ _ _ _ _ _ _ pair_eqb_spec res_is_empty_spec _ _ _ _ _ _ _ _ _ _ _ _ _
+      destruct (sp_lookup_ok _ _ _ _ _ _ _ _ pair_eqb_spec res_is_empty_spec _ _ _ _ _ _ _ _ _ _ _ _ _ _
                   (i_r s H) (pfx_is_prefix _ _ d_res _ _ _ Hpre) E) as [Hi [Hv Ht]].
       split; [apply inv_set_spaces; try assumption; apply H|]. split; [reflexivity|]. split; [|reflexivity].
       unfold res_ok, servable, ans_res. rewrite state_at_res. rewrite map_length in Ht. now split.
     - destruct (k_lookup _ _ _ _ _ _ _ _ _) as [x y'] eqn:E. simpl.
-      destruct (sp_lookup_ok _ _ _ _ _ _ _ _ bytes_eqb_spec kv_is_empty_spec _ _ _ _ _ _ _ _ _ _ _ _ _
+      destruct (sp_lookup_ok _ _ _ _ _ _ _ _ bytes_eqb_spec kv_is_empty_spec _ _ _ _ _ _ _ _ _ _ _ _ _ _
                   (i_k s H) (pfx_is_prefix _ _ d_kv _ _ _ Hpre) E) as [Hi [Hv Ht]].
       split; [apply inv_set_spaces; try assumption; apply H|]. split; [reflexivity|]. split; [|reflexivity].
       unfold res_ok, servable, ans_kv. rewrite state_at_kv. rewrite map_length in Ht. now split.
@@ -492,7 +491,7 @@ Section Inv.
 
   Lemma inv_flush : forall s, Inv s -> Inv (fst (step s OFlush)).
   Proof.
-    intros s H. cbn [step fst]. rewrite (i_fix s H). apply inv_set_spaces; [exact H| | | |apply H].
+    intros s H. cbn [step fst]. apply inv_set_spaces; [exact H| | | |apply H].
     - apply sp_flush_inv; [exact Neqb_spec|apply H].
     - apply sp_flush_inv; [exact pair_eqb_spec|apply H].
     - apply sp_flush_inv; [exact bytes_eqb_spec|apply H].
@@ -500,18 +499,25 @@ Section Inv.
 
   Lemma inv_prune : forall s na nr nk, Inv s -> Inv (fst (step s (OPrune na nr nk))).
   Proof.
-    intros s na nr nk H. cbn [step fst]. rewrite (i_fix s H). apply inv_set_spaces; [exact H| | | |apply H].
+    intros s na nr nk H. cbn [step fst]. apply inv_set_spaces; [exact H| | | |apply H].
     - apply sp_prune_inv; [exact Neqb_spec|apply H].
     - apply sp_prune_inv; [exact pair_eqb_spec|apply H].
     - apply sp_prune_inv; [exact bytes_eqb_spec|apply H].
   Qed.
 
-  (* a stalled reader's cache write lands, whenever *)
-  Lemma inv_land : forall s sp n, Inv s -> Inv (fst (step s (OLand sp n))).
+  (* a held reader's cache write lands: any time with the proposed flush, at a tolerated time
+     with the original one *)
+  Lemma inv_land : forall s sp n, Inv s -> land_okb s sp n = true -> Inv (fst (step s (OLand sp n))).
   Proof.
-    intros s sp n H. cbn [step fst].
+    intros s sp n H Hok. cbn [step fst]. unfold land_okb in Hok.
     destruct sp as [|[|[|sp]]]; [| | |exact H]; apply inv_set_spaces; try exact H; try apply H;
-      apply sp_land_inv; apply H.
+      apply sp_land_inv; try apply H; intro Hf; rewrite Hf in Hok; simpl in Hok.
+    - assert (Ha := i_a s H). unfold IA in Ha. rewrite Hf in Ha.
+      apply land_ok_safe; [exact (si_cache _ _ _ _ _ _ _ _ _ _ _ _ _ _ Ha)|exact Hok].
+    - assert (Ha := i_r s H). unfold IR in Ha. rewrite Hf in Ha.
+      apply land_ok_safe; [exact (si_cache _ _ _ _ _ _ _ _ _ _ _ _ _ _ Ha)|exact Hok].
+    - assert (Ha := i_k s H). unfold IK in Ha. rewrite Hf in Ha.
+      apply land_ok_safe; [exact (si_cache _ _ _ _ _ _ _ _ _ _ _ _ _ _ Ha)|exact Hok].
   Qed.
 
   (* ---------- reload ---------- *)
@@ -547,7 +553,7 @@ Section Inv.
     assert (Hp := i_phase s H). unfold phase_ok in Hp. rewrite Ep in Hp.
     set (s0 := mkSt (t_cfg s) (t_blocks s) (t_dbr s) (t_dbr s) [] _ _ _ _ None PIdle).
     assert (H0 : Inv s0).
-    { destruct H as [Hfix Hwf HR Hpre Ha Hr Hk Hc Hph Hq]. constructor; simpl; try assumption.
+    { destruct H as [Hwf HR Hpre Ha Hr Hk Hc Hph Hq]. constructor; simpl; try assumption.
       - lia.
       - apply pfx_nil.
       - unfold IA in *. now apply sp_reset_inv in Ha.
@@ -625,16 +631,19 @@ Section Inv.
     | _ => True
     end.
 
+  Definition op_safe (s : st) (o : op) : Prop :=
+    match o with OLand sp n => land_okb s sp n = true | _ => True end.
+
   Definition new_blocks (o : op) : list delta := match o with ONewBlock d => [d] | _ => [] end.
 
   Lemma inv_step : forall s o,
-    Inv s -> Full s -> wf_hist g (t_blocks s ++ new_blocks o) ->
+    Inv s -> Full s -> wf_hist g (t_blocks s ++ new_blocks o) -> op_safe s o ->
     Inv (fst (step s o)) /\ Full (fst (step s o)) /\
     t_blocks (fst (step s o)) = t_blocks s ++ new_blocks o /\
     out_ok s o (snd (step s o)) /\
     (op_enabled s o -> snd (step s o) <> RPanic).
   Proof.
-    intros s o H HF Hwf. destruct o.
+    intros s o H HF Hwf Hsafe. destruct o.
     - (* NewBlock *) cbn [step fst snd new_blocks] in *.
       destruct (inv_newblock s d H HF Hwf) as [H1 H2].
       split; [exact H1|]. split; [exact H2|]. split; [reflexivity|]. split; [exact I|]. discriminate.
@@ -702,17 +711,25 @@ Section Inv.
   Lemma history_of_cons : forall o ops, history_of (o :: ops) = new_blocks o ++ history_of ops.
   Proof. intros o ops. destruct o; reflexivity. Qed.
 
+  Lemma lands_ok_cons : forall s o ops,
+    lands_ok s (o :: ops) = true -> op_safe s o /\ lands_ok (fst (step s o)) ops = true.
+  Proof.
+    intros s o ops H. cbn [lands_ok] in H. apply andb_true_iff in H. destruct H as [H1 H2].
+    split; [|exact H2]. destruct o; simpl; try exact I. exact H1.
+  Qed.
+
   Lemma inv_run : forall ops s,
-    Inv s -> Full s -> wf_hist g (t_blocks s ++ history_of ops) ->
+    Inv s -> Full s -> wf_hist g (t_blocks s ++ history_of ops) -> lands_ok s ops = true ->
     Inv (fst (run s ops)) /\ Full (fst (run s ops)) /\
     t_blocks (fst (run s ops)) = t_blocks s ++ history_of ops.
   Proof.
-    induction ops as [|o ops IH]; intros s H HF Hwf.
+    induction ops as [|o ops IH]; intros s H HF Hwf Hl.
     - simpl. rewrite app_nil_r. split; [exact H|split; [exact HF|reflexivity]].
     - rewrite history_of_cons in *. rewrite app_assoc in Hwf.
-      destruct (inv_step s o H HF (wf_hist_prefix _ _ _ Hwf)) as [H1 [H2 [H3 _]]].
+      destruct (lands_ok_cons _ _ _ Hl) as [Hs1 Hs2].
+      destruct (inv_step s o H HF (wf_hist_prefix _ _ _ Hwf) Hs1) as [H1 [H2 [H3 _]]].
       cbn [run]. destruct (step s o) as [s1 r] eqn:E. simpl in *.
-      specialize (IH s1 H1 H2). rewrite H3 in IH. specialize (IH Hwf).
+      specialize (IH s1 H1 H2). rewrite H3 in IH. specialize (IH Hwf Hs2).
       destruct (run s1 ops) as [s2 rs]. simpl in *. now rewrite app_assoc.
   Qed.
 End Inv.
@@ -726,27 +743,101 @@ Proof.
   destruct (N.eqb a a0); [reflexivity|apply IH].
 Qed.
 
-Lemma inv_init : forall c gen, cf_fix c = true -> Inv (genesis_world gen) (init c gen) /\ Full (init c gen).
+Lemma inv_init : forall c gen, Inv (genesis_world gen) (init c gen) /\ Full (init c gen).
 Proof.
-  intros c gen Hfix. split; [|reflexivity].
-  constructor; simpl; try reflexivity; try lia; try exact I; try exact Hfix.
-  - constructor; simpl; [apply mods_ok_nil|apply cinv_empty|intro; reflexivity|].
+  intros c gen. split; [|reflexivity].
+  constructor; simpl; try reflexivity; try lia; try exact I.
+  - constructor; simpl; [apply mods_ok_nil|apply cinvg_empty|intro; reflexivity|].
     intro k. unfold ks_state. simpl. apply acct_table_get.
-  - constructor; simpl; [apply mods_ok_nil|apply cinv_empty|intro; reflexivity|]. reflexivity.
-  - constructor; simpl; [apply mods_ok_nil|apply cinv_empty|intro; reflexivity|]. reflexivity.
-  - constructor; simpl; [apply mods_ok_nil|apply cinv_empty|intro; reflexivity|]. reflexivity.
+  - constructor; simpl; [apply mods_ok_nil|apply cinvg_empty|intro; reflexivity|]. reflexivity.
+  - constructor; simpl; [apply mods_ok_nil|apply cinvg_empty|intro; reflexivity|]. reflexivity.
+  - constructor; simpl; [apply mods_ok_nil|apply (cinvg_empty _ _ _ _ true)|intro; reflexivity|]. reflexivity.
+Qed.
+
+(* every landing is tolerated when the proposed flush is in place *)
+Lemma schedule_cfg : forall s r s', schedule s r = Some s' -> t_cfg s' = t_cfg s.
+Proof.
+  intros s r s' H. unfold schedule in H.
+  repeat match type of H with
+    | (if ?c then _ else _) = _ => destruct c
+    | match ?c with Some _ => _ | None => _ end = _ => destruct c
+    end; inversion H; reflexivity.
+Qed.
+
+Lemma begin_cfg : forall s s', begin s = Some s' -> t_cfg s' = t_cfg s.
+Proof.
+  intros s s' H. unfold begin in H.
+  repeat match type of H with
+    | (if ?c then _ else _) = _ => destruct c
+    | match ?c with _ => _ end = _ => destruct c
+    end; inversion H; reflexivity.
+Qed.
+
+Lemma commitdb_cfg : forall s, t_cfg (commitdb s) = t_cfg s.
+Proof.
+  intro s. unfold commitdb.
+  repeat match goal with |- context [match ?c with _ => _ end] => destruct c end; reflexivity.
+Qed.
+
+Lemma postcommit_cfg : forall s s', postcommit s = Some s' -> t_cfg s' = t_cfg s.
+Proof.
+  intros s s' H. unfold postcommit in H.
+  repeat match type of H with match ?c with _ => _ end = _ => destruct c end; inversion H; reflexivity.
+Qed.
+
+Lemma replay_cfg : forall l s0, t_cfg (fold_left newblock_mem l s0) = t_cfg s0.
+Proof. induction l as [|d l IH]; intro s0; simpl; [reflexivity|]. now rewrite IH. Qed.
+
+Lemma reload_cfg : forall s, t_cfg (fst (reload s)) = t_cfg s.
+Proof.
+  intro s. unfold reload. destruct (t_phase s); try reflexivity. destruct (t_queue s); try reflexivity.
+  set (s0 := mkSt _ _ _ _ _ _ _ _ _ _ _).
+  set (s1 := fold_left newblock_mem _ s0).
+  assert (Hc : t_cfg s1 = t_cfg s) by (unfold s1; now rewrite replay_cfg).
+  destruct (_ <? _); [|exact Hc].
+  destruct (schedule s1 (latest s1)) as [s2|] eqn:E2; [|exact Hc].
+  assert (H2 := schedule_cfg _ _ _ E2).
+  destruct (begin s2) as [s3|] eqn:E3; [|simpl; congruence].
+  assert (H3 := begin_cfg _ _ E3). unfold opt_or.
+  destruct (postcommit (commitdb s3)) as [s5|] eqn:E5; simpl.
+  - rewrite (postcommit_cfg _ _ E5), commitdb_cfg. congruence.
+  - rewrite commitdb_cfg. congruence.
+Qed.
+
+Lemma step_cfg : forall s o, t_cfg (fst (step s o)) = t_cfg s.
+Proof.
+  intros s o. destruct o; cbn [step]; try reflexivity.
+  - unfold opt_or. destruct (schedule s r) eqn:E; simpl; [now apply (schedule_cfg s r)|reflexivity].
+  - unfold opt_or. destruct (begin s) eqn:E; simpl; [now apply begin_cfg|reflexivity].
+  - simpl. apply commitdb_cfg.
+  - unfold opt_or. destruct (postcommit s) eqn:E; simpl; [now apply postcommit_cfg|reflexivity].
+  - assert (H := reload_cfg s). destruct (reload s). exact H.
+  - destruct (a_lookup _ _ _ _ _ _ _ _ _). reflexivity.
+  - destruct (r_lookup _ _ _ _ _ _ _ _ _). reflexivity.
+  - destruct (k_lookup _ _ _ _ _ _ _ _ _). reflexivity.
+  - destruct (a_lookup _ _ _ _ _ _ _ _ _). reflexivity.
+  - destruct (r_lookup _ _ _ _ _ _ _ _ _). reflexivity.
+  - destruct (k_lookup _ _ _ _ _ _ _ _ _). reflexivity.
+  - destruct space as [|[|[|sp]]]; reflexivity.
+Qed.
+
+Lemma lands_ok_fixed : forall ops s, cf_fix (t_cfg s) = true -> lands_ok s ops = true.
+Proof.
+  induction ops as [|o ops IH]; intros s H; cbn [lands_ok]; [reflexivity|].
+  rewrite IH by (now rewrite step_cfg). rewrite andb_true_r.
+  destruct o; try reflexivity. unfold land_okb. now rewrite H.
 Qed.
 
 (* ---------- reachable states ---------- *)
 Definition reach (c : cfg) (gen : list (addr * acct)) (ops : list op) : st := fst (run (init c gen) ops).
 
 Lemma reach_inv : forall c gen ops,
-  cf_fix c = true -> wf_hist (genesis_world gen) (history_of ops) ->
+  lands_ok (init c gen) ops = true -> wf_hist (genesis_world gen) (history_of ops) ->
   Inv (genesis_world gen) (reach c gen ops) /\ Full (reach c gen ops) /\
   t_blocks (reach c gen ops) = history_of ops.
 Proof.
-  intros c gen ops Hfix Hwf. destruct (inv_init c gen Hfix) as [H HF].
-  apply (inv_run (genesis_world gen) ops (init c gen) H HF Hwf).
+  intros c gen ops Hl Hwf. destruct (inv_init c gen) as [H HF].
+  apply (inv_run (genesis_world gen) ops (init c gen) H HF Hwf Hl).
 Qed.
 
 (* the answer the block history dictates *)
@@ -773,7 +864,7 @@ Definition out_is_retry (r : out) : Prop :=
   match r with RAcct LRetry | RRes LRetry | RKv LRetry | RCre LRetry => True | _ => False end.
 
 Lemma lookup_correct_lemma : forall c gen ops q,
-  cf_fix c = true -> wf_hist (genesis_world gen) (history_of ops) -> is_query q ->
+  lands_ok (init c gen) ops = true -> wf_hist (genesis_world gen) (history_of ops) -> is_query q ->
   out_is_ok (snd (step (reach c gen ops) q)) ->
   snd (step (reach c gen ops) q) = spec_out (genesis_world gen) (history_of ops) q.
 Proof.
@@ -800,7 +891,7 @@ Proof.
 Qed.
 
 Lemma lookup_total_lemma : forall c gen ops q,
-  cf_fix c = true -> wf_hist (genesis_world gen) (history_of ops) -> is_query q ->
+  lands_ok (init c gen) ops = true -> wf_hist (genesis_world gen) (history_of ops) -> is_query q ->
   servable (reach c gen ops) (q_rnd q) ->
   match t_phase (reach c gen ops) with
   | PCommitted _ => out_is_ok (snd (step (reach c gen ops) q)) \/ out_is_retry (snd (step (reach c gen ops) q))
@@ -826,20 +917,21 @@ Fixpoint enabled_run (s : st) (ops : list op) : Prop :=
   end.
 
 Lemma no_panic_run : forall g ops s,
-  Inv g s -> Full s -> wf_hist g (t_blocks s ++ history_of ops) -> enabled_run s ops ->
+  Inv g s -> Full s -> wf_hist g (t_blocks s ++ history_of ops) -> lands_ok s ops = true -> enabled_run s ops ->
   Forall (fun r => r <> RPanic) (snd (run s ops)).
 Proof.
-  intros g. induction ops as [|o ops IH]; intros s H HF Hwf He; simpl; [constructor|].
+  intros g. induction ops as [|o ops IH]; intros s H HF Hwf Hl He; simpl; [constructor|].
   rewrite history_of_cons in Hwf. rewrite app_assoc in Hwf. destruct He as [He1 He2].
-  destruct (inv_step g s o H HF (wf_hist_prefix _ _ _ Hwf)) as [H1 [H2 [H3 [_ H5]]]].
+  destruct (lands_ok_cons _ _ _ Hl) as [Hs1 Hs2].
+  destruct (inv_step g s o H HF (wf_hist_prefix _ _ _ Hwf) Hs1) as [H1 [H2 [H3 [_ H5]]]].
   destruct (step s o) as [s1 r] eqn:E. simpl in *.
-  specialize (IH s1 H1 H2). rewrite H3 in IH. specialize (IH Hwf He2).
+  specialize (IH s1 H1 H2). rewrite H3 in IH. specialize (IH Hwf Hs2 He2).
   destruct (run s1 ops) as [s2 rs]. simpl in *. constructor; [now apply H5|exact IH].
 Qed.
 
 (* ---------- corollaries stated by props/C08.v ---------- *)
 Lemma schedule_independent_lemma : forall c1 c2 gen ops1 ops2 q,
-  cf_fix c1 = true -> cf_fix c2 = true ->
+  lands_ok (init c1 gen) ops1 = true -> lands_ok (init c2 gen) ops2 = true ->
   history_of ops1 = history_of ops2 ->
   wf_hist (genesis_world gen) (history_of ops1) -> is_query q ->
   out_is_ok (snd (step (reach c1 gen ops1) q)) -> out_is_ok (snd (step (reach c2 gen ops2) q)) ->
@@ -851,17 +943,17 @@ Proof.
 Qed.
 
 Lemma no_panic_reach : forall c gen ops,
-  cf_fix c = true -> wf_hist (genesis_world gen) (history_of ops) -> enabled_run (init c gen) ops ->
+  lands_ok (init c gen) ops = true -> wf_hist (genesis_world gen) (history_of ops) -> enabled_run (init c gen) ops ->
   Forall (fun r => r <> RPanic) (snd (run (init c gen) ops)).
 Proof.
-  intros c gen ops Hfix Hwf He. destruct (inv_init c gen Hfix) as [H HF].
+  intros c gen ops Hfix Hwf He. destruct (inv_init c gen) as [H HF].
   now apply (no_panic_run (genesis_world gen) ops (init c gen) H HF).
 Qed.
 
 (* in a reachable state the DB never lags behind memory and a prepared / committed range is
    inside the in-memory deltas *)
 Lemma reach_phase : forall c gen ops,
-  cf_fix c = true -> wf_hist (genesis_world gen) (history_of ops) ->
+  lands_ok (init c gen) ops = true -> wf_hist (genesis_world gen) (history_of ops) ->
   let s := reach c gen ops in
   match t_phase s with
   | PIdle => t_dbr s = t_dbRound s
@@ -871,4 +963,31 @@ Lemma reach_phase : forall c gen ops,
 Proof.
   intros c gen ops Hfix Hwf. destruct (reach_inv c gen ops Hfix Hwf) as [H [HF Hb]]. simpl.
   split; [exact (i_phase _ _ H)|]. unfold Full in HF. now rewrite <- Hb.
+Qed.
+
+(* runs without held readers, and runs against the proposed flush, meet the landing hypothesis *)
+Definition prompt (ops : list op) : bool :=
+  forallb (fun o => match o with OLand _ _ => false | _ => true end) ops.
+
+Lemma lands_ok_prompt : forall ops s, prompt ops = true -> lands_ok s ops = true.
+Proof.
+  induction ops as [|o ops IH]; intros s H; cbn [lands_ok]; [reflexivity|].
+  simpl in H. apply andb_true_iff in H. destruct H as [H1 H2]. rewrite (IH _ H2), andb_true_r.
+  destruct o; try reflexivity. discriminate.
+Qed.
+
+Lemma lookup_correct_fixed_lemma : forall c gen ops q,
+  cf_fix c = true -> wf_hist (genesis_world gen) (history_of ops) -> is_query q ->
+  out_is_ok (snd (step (reach c gen ops) q)) ->
+  snd (step (reach c gen ops) q) = spec_out (genesis_world gen) (history_of ops) q.
+Proof. intros c gen ops q Hf. apply lookup_correct_lemma. now apply lands_ok_fixed. Qed.
+
+Lemma schedule_independent_fixed_lemma : forall c1 c2 gen ops1 ops2 q,
+  cf_fix c1 = true -> cf_fix c2 = true ->
+  history_of ops1 = history_of ops2 ->
+  wf_hist (genesis_world gen) (history_of ops1) -> is_query q ->
+  out_is_ok (snd (step (reach c1 gen ops1) q)) -> out_is_ok (snd (step (reach c2 gen ops2) q)) ->
+  snd (step (reach c1 gen ops1) q) = snd (step (reach c2 gen ops2) q).
+Proof.
+  intros c1 c2 gen ops1 ops2 q H1 H2. apply schedule_independent_lemma; now apply lands_ok_fixed.
 Qed.
